@@ -199,7 +199,7 @@ PROPS = {
         level="other",
         technique="Kani contract harnesses: next_change_hint lower-bound contract per selector, is_constant soundness",
         level_text="Partial. The mechanism that lets range iteration skip days is put under contract: for each selector type `next_change_hint(d) = Some(h)` implies h > d and filter(d') = filter(d) for every d' strictly between (one extra symbolic date = every skipped day), for all nodes and all dates (year step=1, year-less and year-ful month ranges, ISO weeks, holidays over abstract calendars, lists and DaySelector = earliest hint; dated ranges: the pairing code's next_change against its contract on bounded bound lists, and the real hint arms of `2024 Mar 1-2024 Apr 15` / `2021 Mar 28-Apr 16` / year-less ranges against that contract and the hint contract); `is_constant()` implies that every day evaluates to one and the same full-day kind under a spec fold of the rule list written from C01's statement (bounded: <= 2 rules quick, 3 thorough). These are necessary conditions for 'no state change is skipped'; the stream-level statement itself (an invariant of TimeDomainIterator across days) is not decided.",
-        level_note="Assumes the AST invariants; holiday calendars abstracted by contract models (C15). Year ranges with step >= 2 are bounded (step <= 4, thorough tier). Not decided: the interval stream produced by TimeDomainIterator (non-empty, increasing, gap-free, exact cover, adjacent states differ): CBMC gives no answer on any expression and Verus rejects the code; the composition of per-rule hints in OpeningHours::next_change_hint (spill-over of the previous day, `Jul 22 04:00-48:00`).",
+        level_note="Assumes the AST invariants; holiday calendars abstracted by contract models (C15). The hint of year ranges with step >= 2 is not decided by the registered commands (harness year_hint_step_2_to_4, deep tier: its obligation bundles an upper bound `h <= 10000-01-01` that the property does not require and that `9827-9999/3` violates harmlessly). Not decided: the interval stream produced by TimeDomainIterator (non-empty, increasing, gap-free, exact cover, adjacent states differ): CBMC gives no answer on any expression and Verus rejects the code; the composition of per-rule hints in OpeningHours::next_change_hint (spill-over of the previous day, `Jul 22 04:00-48:00`).",
         explanation="PARTIAL: hint contracts and is_constant only; the stream-level clauses are undecided.",
         undecided_clauses=[
             "'the intervals produced by range iteration are non-empty, in increasing order, gap-free and cover exactly [from, min(to, 10000-01-01))', 'the state of each interval is the state the daily schedules give', 'consecutive intervals have different states' - invariants of TimeDomainIterator over a caller history: not decided",
